@@ -228,6 +228,7 @@ func (r *Run) Extra(k string, v interface{}) { r.mu.Lock(); r.extra[k] = v; r.mu
 // evaluations: counter name holding the number of cases; nontrivialSet: distinct set whose
 // size is reported as distinct_nontrivial; need: minimum of it for the run to be conclusive.
 func (r *Run) Finish(evalCounter, nontrivialSet, rule string, need int) {
+	r.CollectRaces()
 	r.mu.Lock()
 	cov := map[string]interface{}{}
 	for k, v := range r.extra {
